@@ -545,13 +545,38 @@ def run():
     if reg_body is None:
         broken.append("runtime.rs: register_builtin_functions not found")
     else:
-        pair = r'"(\w+)"\s*,\s*(?:[\w:]+\s*\(\s*)?(\w+)::new\s*\(\s*\)'
-        regs = re.findall(pair, reg_body)
+        implementors = set(re.findall(r"impl\s+Function\s+for\s+(\w+)", whole))
+
+        def pairs(text):
+            """(name, struct) for every string literal followed, in the same comma-separated group, by one
+            expression that names exactly one implementor of `Function` (a constructor call, a boxed constructor,
+            a generic instantiation such as `boxed::<AbsFn>`, ...)."""
+            found = []
+            for m in re.finditer(r'"(\w+)"(?:\s*\.\s*\w+\s*\(\s*\))*\s*,', text):
+                i = m.end()
+                depth = 0
+                j = i
+                while j < len(text):
+                    ch = text[j]
+                    if ch in "([{<" and not (ch == "<" and text[j - 1:j] not in (":",)):
+                        depth += 1
+                    elif ch in ")]}" or (ch == ">" and depth > 0 and text[j - 1:j] != "-" and text[j - 1:j] != "="):
+                        if depth == 0:
+                            break
+                        depth -= 1
+                    elif ch in ",;" and depth == 0:
+                        break
+                    j += 1
+                ids = [w for w in re.findall(r"\b[A-Za-z_]\w*\b", text[i:j]) if w in implementors]
+                if len(set(ids)) == 1:
+                    found.append((m.group(1), ids[0]))
+            return found
+
+        regs = pairs(reg_body)
         n_calls = len(re.findall(r'"\w+"', reg_body))
         if len(regs) == 0:
             # the (name, implementation) pairs may be tabulated elsewhere and registered in a loop
-            implementors = set(re.findall(r"impl\s+Function\s+for\s+(\w+)", whole))
-            regs = [(nm, st) for nm, st in re.findall(pair, whole) if st in implementors]
+            regs = pairs(whole)
             n_calls = len(regs)
             if regs:
                 notes.append("registrations read from a table outside register_builtin_functions")
